@@ -292,3 +292,12 @@ func safely(f func()) (panicked bool, val any) {
 	f()
 	return
 }
+
+// hookWorkers: the instrumentation hook is process-global, so scenarios that attach a
+// recorder must be explored by a single goroutine in an instrumented build.
+func hookWorkers() int {
+	if instrOn {
+		return 1
+	}
+	return 0
+}
